@@ -1,7 +1,10 @@
 (* C18/Examples.v — non-vacuity: concrete values meeting the hypotheses of every implication of Props.v, on the
    scratch workspace of Lemmas.v section 10 (x_world: members a 2015, b 2021, c 2018; a and b share a lib.rs;
    a -> util at ext/util, b -> util (depname 5) or util2 (depname 7) at ext2/util, both outside the workspace).
-   The computed results are the ones observed with the real cargo-fmt binary on that workspace. *)
+   The computed results are the ones observed with the real cargo-fmt binary on that workspace.
+   Since the repairs 4ca8aa6 / 3ddf33c both switches of Model.v select the repaired code; the examples stated
+   through get_targets / execute / exit_code_of show the repaired behaviour, those naming get_targets_recursive /
+   exit_code the behaviour before the repairs. *)
 From Coq Require Import String Ascii ZArith Sorted.
 From V Require Import Base.Text C18.Model C18.Lemmas.
 Open Scope N_scope.
@@ -10,6 +13,10 @@ Open Scope list_scope.
 Definition W5 := x_world 5 105 x_ok.     (* two dependencies called util; run in the workspace root *)
 Definition W7 := x_world 7 105 x_ok.     (* distinct dependency names *)
 Definition W5a := x_world 5 106 x_ok.    (* run in ws/a *)
+
+(* the switches as they stand: visited keyed by manifest path, a status without code is a failure *)
+Example switches_repaired : vkey_all = vkey_path /\ failure_code_of = failure_code_fixed.
+Proof. split; reflexivity. Qed.
 
 (* ---------------- Root ---------------- *)
 Example root_in_ws_root :
@@ -41,6 +48,12 @@ Proof.
 Qed.
 
 (* ---------------- All ---------------- *)
+(* repaired: both packages called util are formatted *)
+Example all_repaired :
+  get_targets W5 5 SAll None
+  = Ok [MkT 2 0 2018; MkT 4 0 2021; MkT 8 1 2015; MkT 10 1 2021; MkT 12 0 2018; MkT 13 0 2015].
+Proof. vm_compute. reflexivity. Qed.
+(* before the repair (visited keyed by name): ext2/util/src/lib.rs (4) is missing *)
 Example all_name_collision :
   get_targets_gen W5 (get_targets_recursive W5) 5 SAll None
   = Ok [MkT 2 0 2018; MkT 8 1 2015; MkT 10 1 2021; MkT 12 0 2018; MkT 13 0 2015].
@@ -127,9 +140,12 @@ Proof. split; [vm_compute; discriminate|vm_compute; reflexivity]. Qed.
 
 (* ---------------- once / editions ---------------- *)
 Definition S5 : tset := [MkT 2 0 2018; MkT 8 1 2015; MkT 10 1 2021; MkT 12 0 2018; MkT 13 0 2015].
+Definition S6 : tset := [MkT 2 0 2018; MkT 4 0 2021; MkT 8 1 2015; MkT 10 1 2021; MkT 12 0 2018; MkT 13 0 2015].
 Example s5_nodup : NoDup (map t_path S5).
 Proof. apply sorted_lt_NoDup. cbn. repeat constructor. Qed.
 Example s5_groups : by_edition S5 = [(2015, [8; 13]); (2018, [2; 12]); (2021, [10])].
+Proof. vm_compute. reflexivity. Qed.
+Example s6_groups : by_edition S6 = [(2015, [8; 13]); (2018, [2; 12]); (2021, [4; 10])].
 Proof. vm_compute. reflexivity. Qed.
 (* the shared file: a's lib (2015) is inserted before b's (2021) and stays *)
 Example shared_file_first_wins :
@@ -159,13 +175,18 @@ Proof. vm_compute. reflexivity. Qed.
 (* since the repair (fix: commit 4ca8aa6) a signal death is a failure; before it this was 7 (the signal was dropped) *)
 Example exit_signal_is_failure : fst (execute (x_world 5 105 (child_by_edition Signaled)) 5 o_all) = 1%Z.
 Proof. vm_compute. reflexivity. Qed.
+(* before the repair the signal death was dropped: the same statuses gave 7 *)
+Example exit_signal_dropped_before :
+  exit_code [Exited 0; Signaled; Exited 7] = 7%Z /\ exit_code_of [Exited 0; Signaled; Exited 7] = 1%Z.
+Proof. split; vm_compute; reflexivity. Qed.
 Example spawn_failure_stops :
   let r := execute (x_world 5 105 (child_by_edition SpawnFailed)) 5 o_all in
   fst r = 1%Z /\ List.length (snd r) = 2%nat.
 Proof. vm_compute. split; reflexivity. Qed.
 Example exit_examples :
   exit_code [Exited 0; Exited 3; Exited 7] = 3%Z /\ exit_code [Signaled; Signaled] = 0%Z /\
-  exit_code_fixed [Signaled; Exited 3] = 1%Z /\ exit_code [Exited 0; SpawnFailed; Exited 0] = 1%Z /\
+  exit_code_fixed [Signaled; Exited 3] = 1%Z /\ exit_code_of [Signaled; Signaled] = 1%Z /\
+  exit_code [Exited 0; SpawnFailed; Exited 0] = 1%Z /\
   ~ In Signaled [Exited 0; Exited 3; SpawnFailed].
 Proof.
   repeat split; try (vm_compute; reflexivity). intros [H|[H|[H|[]]]]; discriminate.
@@ -173,8 +194,8 @@ Qed.
 Example execute_exit_hyps :
   let w := x_world 5 105 (child_by_edition (Exited 3)) in
   info_request o_all = false /\ verbosity_of o_all = Some Normal /\ final_args o_all = Some [] /\
-  manifest_arg w o_all = Some None /\ get_targets w 5 (strategy_from_opts o_all) None = Ok S5 /\
-  (forall i, In i (planned Normal S5 []) -> w_child w i <> Signaled).
+  manifest_arg w o_all = Some None /\ get_targets w 5 (strategy_from_opts o_all) None = Ok S6 /\
+  (forall i, In i (planned Normal S6 []) -> w_child w i <> Signaled).
 Proof.
   repeat split; try (vm_compute; reflexivity).
   intros i Hi. cbn in Hi. destruct Hi as [<-|[<-|[<-|[]]]]; vm_compute; discriminate.
